@@ -1,10 +1,9 @@
 package scen
 
 import (
-	"errors"
 	"fmt"
-	"strings"
 	"math/rand/v2"
+	"strings"
 	"sync"
 
 	"github.com/lugu/qiloop/bus"
@@ -245,8 +244,6 @@ type c13state struct {
 	pairs []int // connection pair of each client connection
 }
 
-var errVictimBroken = errors.New("victim-broken: no route to host")
-
 func (c13) Run(c *core.Case, env *core.Env) {
 	st := &c13state{}
 	env.Set("st", st)
@@ -298,7 +295,7 @@ func (c13) Run(c *core.Case, env *core.Env) {
 				zzsim.Yield("h.break-delay")
 			}
 			zzsim.Event("the server's writes to the victim start failing")
-			vconn.Peer().FailWrites(errVictimBroken)
+			vconn.Peer().FailWrites(ErrVictimBroken)
 			env.Probe("a-subscriber-became-unreachable")
 		}()
 	}
